@@ -44,9 +44,9 @@ def cbmc_run(files, fn, defines, unwind, cap, paths=False):
     if paths: cmd += ['--paths', 'lifo']
     t0 = time.time()
     try:
-        def limit():      # a run that needs more than 11 GB fails by itself (reported as not covered) instead of waking the OOM killer
+        def limit():      # a run that needs more than 10 GB fails by itself (reported as not covered) instead of waking the OOM killer
             import resource
-            resource.setrlimit(resource.RLIMIT_AS, (11 << 30, 11 << 30))
+            resource.setrlimit(resource.RLIMIT_AS, (10 << 30, 10 << 30))
         p = subprocess.run(cmd, stdout=subprocess.PIPE, stderr=subprocess.STDOUT, text=True, timeout=cap, preexec_fn=limit)
         out = p.stdout
     except subprocess.TimeoutExpired as e:
@@ -159,10 +159,10 @@ def main(pid, tier, seed, replay_path, spec):
             r['failed'] = [f[2] for f in engine_k.failed_assertions(out)][:6]
             r['draws'] = trace_draws(out)
         elif v == 'error':
-            r['reason'] = 'CBMC ended without a verdict (memory limit 11 GB or front-end error): ' + out[-160:].replace('\n', ' ')
+            r['reason'] = 'CBMC ended without a verdict (memory limit 10 GB or front-end error): ' + out[-160:].replace('\n', ' ')
         return r
     # the merged 4-event formulas need several GB each: fewer concurrent CBMC processes in the thorough tier
-    with ThreadPoolExecutor(16 if tier == 'quick' else 5) as ex:
+    with ThreadPoolExecutor(16 if tier == 'quick' else 6) as ex:
         both = list(ex.map(decide, [(j, w) for j in jobs for w in (False, True)]))
     results = []
     for k in range(len(jobs)):
